@@ -425,7 +425,11 @@ func (c *CoreRun) exec(l map[string]any) string {
 			c.push(vb, x)
 			r.S.Emit(Ev{"ev": "Pushed", "vb": vb + 1})
 		})
-		c.r.S.WaitUntil(stepTimeout, func(p map[string]string, d map[string]bool) bool { return d[th] || p[th] == "consume" })
+		wait := stepTimeout
+		if !c.r.Cfg.RollbackMitigation.Disabled {
+			wait = 40 * time.Millisecond // the callback may be waiting at the rollback-mitigation gate (it polls, it does not park)
+		}
+		c.r.S.WaitUntil(wait, func(p map[string]string, d map[string]bool) bool { return d[th] || p[th] == "consume" })
 		if msg, died := c.r.S.Died(th); died {
 			// a panic on gocbcore's dispatch goroutine kills the process
 			c.r.S.Emit(Ev{"ev": "Died", "msg": msg})
@@ -583,8 +587,27 @@ func (c *CoreRun) exec(l map[string]any) string {
 	case "Crash":
 		c.r.S.Emit(Ev{"ev": "Crash"})
 		c.kill()
-	case "SaveAcquire":
+	case "SaveAcquire", "GateOpen":
 		// (only reached in a diverged run: nothing to do, the thread proceeds by itself)
+	case "RmSwitch":
+		on, _ := l["on"].(bool)
+		slots := num(c.sch.Cfg["Slots"])
+		c.r.RmSwitch(on, slots)
+		c.r.S.Emit(Ev{"ev": "RmSwitch", "on": on, "slots": slots})
+	case "Report":
+		if c.r.RM == nil {
+			return "rollback mitigation is off"
+		}
+		vb, slot, uuid, seq := num(l["vb"]), num(l["slot"]), num(l["uuid"]), num(l["seq"])
+		c.r.S.Emit(Ev{"ev": "Report", "vb": vb, "slot": slot, "uuid": uuid, "seq": seq})
+		c.r.RM.Report(uint16(vb-1), slot-1, gocbcore.VbUUID(uuid), gocbcore.SeqNo(seq))
+	case "Absent":
+		if c.r.RM == nil {
+			return "rollback mitigation is off"
+		}
+		vb, slot := num(l["vb"]), num(l["slot"])
+		c.r.S.Emit(Ev{"ev": "Absent", "vb": vb, "slot": slot})
+		c.r.RM.Absent(uint16(vb-1), slot-1)
 	case "Scrape":
 		r := c.r
 		r.S.Go("scr", func() { r.S.Emit(r.Scrape()) })
@@ -702,7 +725,7 @@ func (c *CoreRun) kill() {
 	c.up = false
 }
 
-func autoLabel(l map[string]any) bool { return str(l["a"]) == "SaveAcquire" }
+func autoLabel(l map[string]any) bool { a := str(l["a"]); return a == "SaveAcquire" || a == "GateOpen" }
 
 // OnStep, if set, is told when a step begins and when its trace line is complete.
 var OnStep func(begin bool, i int, tl *TraceLine)
@@ -775,6 +798,7 @@ func (c *CoreRun) Run() []TraceLine {
 			tl.Post = Ev{"up": false}
 			if wasUp && rOld != nil {
 				rOld.S.Kill()
+				rOld.Reap()
 			}
 		}
 		tl.Evs = evs
@@ -794,6 +818,7 @@ func (c *CoreRun) Run() []TraceLine {
 	}
 	if c.r != nil {
 		c.r.S.Kill()
+		c.r.Reap()
 	}
 	return c.lines
 }
